@@ -490,6 +490,18 @@ impl KeyGenerator {
         &self.secret_key
     }
 
+    /// H4: snapshot of the cached secret key powers.
+    #[cfg(feature = "verif-hooks")]
+    pub fn verif_secret_key_array(&self) -> Vec<u64> {
+        self.secret_key_array.read().unwrap().clone()
+    }
+
+    /// H4: relinearization keys for ciphertexts of size up to `count + 2` (the public entry point fixes count = 1).
+    #[cfg(feature = "verif-hooks")]
+    pub fn verif_create_relin_keys(&self, count: usize, save_seed: bool) -> RelinKeys {
+        self.generate_rlk(count, save_seed)
+    }
+
     fn compute_secret_key_array(&self, max_power: usize) {
         let context_data = self.context.key_context_data().unwrap();
         let parms = context_data.parms();
@@ -497,6 +509,8 @@ impl KeyGenerator {
         let coeff_modulus_size = coeff_modulus.len();
         let coeff_count = parms.poly_modulus_degree();
 
+        #[cfg(feature = "verif-hooks")]
+        crate::verif_hooks::yield_point("kg.csk.enter");
         // Aquire read lock
         let read_lock = self.secret_key_array.read().unwrap();
         assert!(read_lock.len() % (coeff_count * coeff_modulus_size) == 0);
@@ -515,6 +529,8 @@ impl KeyGenerator {
         secret_key_array[..old_size * poly_size].copy_from_slice(&read_lock[..old_size * poly_size]);
         // Drop lock
         drop(read_lock);
+        #[cfg(feature = "verif-hooks")]
+        crate::verif_hooks::yield_point("kg.csk.copied");
         
         // Since all of the key powers in secret_key_array_ are already NTT transformed, to get the next one we simply
         // need to compute a dyadic product of the last one with the first one [which is equal to NTT(secret_key_)].
@@ -530,6 +546,8 @@ impl KeyGenerator {
             }
         }
 
+        #[cfg(feature = "verif-hooks")]
+        crate::verif_hooks::yield_point("kg.csk.computed");
         // Aquire write lock
         let mut write_lock = self.secret_key_array.write().unwrap();
 
@@ -607,6 +625,8 @@ impl KeyGenerator {
 
         // Make sure we have enough secret keys computed
         self.compute_secret_key_array(count + 1);
+        #[cfg(feature = "verif-hooks")]
+        crate::verif_hooks::yield_point("kg.rlk.after_csk");
 
         // Create the RelinKeys object to return
         let mut relin_keys = RelinKeys::default();
